@@ -185,8 +185,9 @@ def rot_tol(st, axis=(0.0, 0.0, 1.0)):
         return 1e-12 + 8e-16 / (st * st)
     if st > 0:
         return 1e-12 + 1e-15 / st + 1e-7 * st
-    # |z| rounds to 1: rot is treated as the z axis itself, off by its (x, y) <~ 1.5e-8
-    return 1e-12 + 2 * math.hypot(axis[0], axis[1])
+    # |z| rounds to 1 (here; in the code it may be 1 - 2^-53, i.e. sin(theta) = 1.5e-8): rot is treated as
+    # the z axis itself (or tilted by that rounding residue), off by its (x, y) <~ 1.5e-8
+    return 1e-12 + 2 * math.hypot(axis[0], axis[1]) + 3e-8
 
 
 def dot(a, b):
